@@ -76,7 +76,7 @@ func c19Bypass(t *http.Transport) string {
 
 func TestVerifC19Config(t *testing.T) {
 	L := ev.Begin("C19", "c19-config", "exploration",
-		"every combination of the five proxy transport options over {0, 50ms/7, 3s/4242} (3^5) -> transport.SetConfig -> the transports fabio builds: default and skip-verify (main.newHTTPProxy) and the per-route transport of a `host=x proto=https` target; compared field by field (ResponseHeaderTimeout, IdleConnTimeout, MaxIdleConnsPerHost, and dial Timeout/KeepAlive read off the dialer the transport carries; every dial path the transport offers - Dial, DialContext, DialTLS, DialTLSContext - must end in that dialer). non-trivial = combination with at least one non-zero value")
+		"every combination of the five proxy transport options over {0, 50ms/7, 3s/4242} (3^5) -> transport.SetConfig -> the transports fabio builds: default and skip-verify (main.newHTTPProxy) and the per-route transport of a `host=x proto=https` target; compared field by field (ResponseHeaderTimeout, IdleConnTimeout, MaxIdleConnsPerHost, and dial Timeout/KeepAlive read off the dialer the transport carries; every dial path the transport offers - Dial, DialContext, DialTLS, DialTLSContext - must end in that dialer); plus the five options given to config.Load next to 8 sets of other time options of the proxy: loaded and carried by the transport unchanged. non-trivial = combination with at least one non-zero value")
 	durs := []time.Duration{0, 50 * time.Millisecond, 3 * time.Second}
 	conns := []int{0, 7, 4242}
 	for _, dial := range durs {
@@ -141,6 +141,36 @@ func TestVerifC19Config(t *testing.T) {
 					}
 				}
 			}
+		}
+	}
+	// the five limits are the operator's, whatever else is configured: loaded through config.Load next to every other
+	// time option of the proxy (listener defaults and per-listener values, smaller and larger than the limit)
+	base := []string{"-proxy.dialtimeout=4s", "-proxy.responseheadertimeout=2s", "-proxy.keepalivetimeout=7s", "-proxy.idleconntimeout=9s", "-proxy.maxconn=77"}
+	others := [][]string{nil, {"-proxy.writetimeout=200ms"}, {"-proxy.readtimeout=200ms"}, {"-proxy.writetimeout=200ms", "-proxy.addr=:9999;wt=5s;rt=5s"}, {"-proxy.writetimeout=30s", "-proxy.readtimeout=30s"},
+		{"-proxy.flushinterval=100ms", "-proxy.globalflushinterval=100ms"}, {"-proxy.shutdownwait=100ms", "-proxy.deregistergraceperiod=100ms"}, {"-proxy.grpcshutdowntimeout=100ms", "-proxy.grpcmaxrxmsgsize=1"}, {"-proxy.addr=:9999;idletimeout=100ms"}}
+	for _, extra := range others {
+		args := append(append([]string{"fabio"}, base...), extra...)
+		L.Case()
+		L.NontrivialKey(fmt.Sprint("load", extra))
+		cfg, err := config.Load(args, nil)
+		d := map[string]interface{}{"args": args}
+		if err != nil {
+			d["err"] = err.Error()
+			L.Violation("well-formed-configuration-rejected", d)
+			continue
+		}
+		got := fmt.Sprint(cfg.Proxy.DialTimeout, cfg.Proxy.ResponseHeaderTimeout, cfg.Proxy.KeepAliveTimeout, cfg.Proxy.IdleConnTimeout, cfg.Proxy.MaxConn)
+		if want := "4s 2s 7s 9s 77"; got != want {
+			d["loaded"], d["configured"] = got, want
+			L.Violation("configured-limit-changed-by-another-option", d)
+			continue
+		}
+		cfg.Proxy.Strategy, cfg.Proxy.Matcher, cfg.GlobCacheSize = "rr", "prefix", 10
+		transport.SetConfig(cfg)
+		hp := newHTTPProxy(cfg, c19Stats())
+		if ht, ok := hp.Transport.(*http.Transport); !ok || ht.ResponseHeaderTimeout != 2*time.Second || ht.IdleConnTimeout != 9*time.Second || ht.MaxIdleConnsPerHost != 77 {
+			d["transport"] = fmt.Sprintf("%+v", hp.Transport)
+			L.Violation("transport-does-not-carry-the-configured-limits", d)
 		}
 	}
 	L.End(true)
